@@ -158,15 +158,17 @@ class _UnpickleableExceptionWrapper(Exception):  # noqa: N818
         )
         res = res.with_traceback(exc.__traceback__)
 
-        cause = exc.__cause__ and _prepare_exception(exc.__cause__, coder)
-        if exc.__context__ and not exc.__suppress_context__:
+        cause = None
+        if exc.__cause__ is not None:
+            cause = _prepare_exception(exc.__cause__, coder)
+        if exc.__context__ is not None and not exc.__suppress_context__:
             context = _prepare_exception(exc.__context__, coder)
         else:
             context = None
 
-        if cause and not isinstance(cause, BaseException):
+        if cause is not None and not isinstance(cause, BaseException):
             cause = exc.__cause__
-        if context and not isinstance(context, BaseException):
+        if context is not None and not isinstance(context, BaseException):
             context = exc.__context__
 
         res.__cause__ = cause  # type: ignore
@@ -231,7 +233,7 @@ def get_pickleable_exception(
         pass
 
     nearest = find_pickleable_exception(exc, coder)
-    if nearest:
+    if nearest is not None:
         return nearest
 
     return _UnpickleableExceptionWrapper.from_exception(exc, coder)
@@ -298,8 +300,10 @@ def _prepare_exception(
 
         exctype = type(exc)
 
-        cause = exc.__cause__ and _prepare_exception(exc.__cause__, coder)
-        if exc.__context__ and not exc.__suppress_context__:
+        cause = None
+        if exc.__cause__ is not None:
+            cause = _prepare_exception(exc.__cause__, coder)
+        if exc.__context__ is not None and not exc.__suppress_context__:
             context = _prepare_exception(exc.__context__, coder)
         else:
             context = None
@@ -342,7 +346,7 @@ def exception_to_python(
     :raises SecurityError: exception isn't indeed an exception
     :return: decoded exception or None
     """
-    if not exc:
+    if exc is None:
         return None
 
     if isinstance(exc, BaseException):
@@ -395,9 +399,9 @@ def exception_to_python(
     except Exception:
         exception = Exception(f"{cls}({exc_msg})")
 
-    if exc.exc_cause:
+    if exc.exc_cause is not None:
         exception.__cause__ = exception_to_python(exc.exc_cause)
-    if exc.exc_context:
+    if exc.exc_context is not None:
         exception.__context__ = exception_to_python(exc.exc_context)
 
     exception.__suppress_context__ = exc.exc_suppress_context
